@@ -52,7 +52,7 @@ func main() {
 				"dist=Xs=ternary-H=N", "dist=Xe=gaussian-3.2", "dist-invalid=Xs=ternary-H=N+1", "dist-invalid=Xe=gaussian-sigma<0", "bgv-t=t=q0", "bgv-t=t-just-above-q0/2", "bgv-t=17(order16)", "bgv-big-t=61", "ckks-scale=0", "ckks-scale=128", "ckks-scale=129",
 				"ckks-encode=checked", "bgv=mulrelin-checked", "btp=ordinary", "long-chain=M=33", "long-chain=M=64", "long-chain=P-last=Q-first", "long-chain=valid", "json=own-encoding", "json=own-encoding-into-used-receiver", "json=unknown-field", "json=Xs-unknown-type", "accepted=accept/btp", "rejected=accept/btp", "gen=generated", "generator=upstream", "generator=downstream", "generator=alternating", "generator=exhausted-with-error",
 				"exhausted=NextUpstreamPrime", "exhausted=NextDownstreamPrime", "exhausted=NextAlternatingPrime",
-				"roundtrip=rlwe", "roundtrip=NTTFlag=false", "roundtrip=bgv", "roundtrip=ckks", "security=catalogue", "security=claim-checked", "security=kind=standard", "security=kind=repo-statement", "security=class=H32"}
+				"roundtrip=rlwe", "roundtrip=NTTFlag=false", "roundtrip=StandardParameters-of-conjugate-invariant", "roundtrip=bgv", "roundtrip=ckks", "security=catalogue", "security=claim-checked", "security=kind=standard", "security=kind=repo-statement", "security=class=H32"}
 		},
 	})
 }
